@@ -295,9 +295,10 @@ def same_transform(a, b, tol):
     return all(less_than_tol(x, y, tol) for x, y in zip(a["d"] + ra, b["d"] + rb))
 
 
-CRITERIA = ["type", "constants", "transform", "periodic", "boundary"]
+CRITERIA = ["type", "arity", "constants", "transform", "periodic", "boundary"]
 FAIL_CLASS = {
     "type": "merged-different-type",
+    "arity": "merged-different-arity",
     "constants": "merged-outside-tolerance",
     "transform": "merged-different-transform",
     "periodic": "merged-periodic",
@@ -310,7 +311,11 @@ def dup_failures(a, b, tol):
     bad = []
     if a["t"] != b["t"]:
         bad.append("type")
-    if len(a["c"]) != len(b["c"]) or not all(less_than_tol(x, y, tol) for x, y in zip(a["c"], b["c"])):
+    if len(a["c"]) != len(b["c"]):
+        # "whose constants differ by less than the tolerance": a constant without a partner differs from nothing;
+        # the longer card describes another surface (second sheet of a cone cut off, more points of revolution ...)
+        bad.append("arity")
+    elif not all(less_than_tol(x, y, tol) for x, y in zip(a["c"], b["c"])):
         bad.append("constants")
     if not same_transform(a["tr"], b["tr"], tol):
         bad.append("transform")
@@ -442,7 +447,8 @@ def judge_call(before, after, tol, sig_base):
                 if not bad:
                     best = []
                     break
-                if best is None or len(bad) < len(best):
+                # closest survivor: fewest unmet criteria, among those one of the same mnemonic first
+                if best is None or (len(bad), "type" in bad) < (len(best), "type" in best):
                     best = bad
             if best is None:
                 best = ["type"]
